@@ -587,7 +587,7 @@ pub fn check(ctx: &Ctx) -> Vec<PartReport> {
             require: vec![],
         },
     ));
-    let n = ctx.cases(12_000, 150_000);
+    let n = ctx.cases(40_000, 200_000);
     out.push(run_part(
         ctx,
         PartSpec {
